@@ -56,6 +56,7 @@ pub fn tables(seed: u64, per_kind: usize) -> Vec<super::CampaignRes> {
     };
     let (vi, circuit, op_ids) = build(&bsp).unwrap_or_else(|e| panic!("{e}"));
     let positions = circuit.public_flat_len + circuit.private_flat_len;
+    let statics = static_oracles(&circuit, &tw_batch(&vi, &bsp.proof));
     let n = bsp.proof.opened_values.instances.len();
     let mut pis: Vec<Vec<F>> = vec![vec![]; n];
     let mut f = |op: Op| -> Resp {
@@ -88,5 +89,5 @@ pub fn tables(seed: u64, per_kind: usize) -> Vec<super::CampaignRes> {
             }
         }
     };
-    vec![drive(name, seed, per_kind, positions, &mut f)]
+    vec![drive(name, seed, per_kind, positions, statics, &mut f)]
 }
